@@ -35,6 +35,9 @@ ASSUMPTIONS = ['level-free scope options in the completeness oracle (depth limit
 UNPROVED = []
 
 
+RUN_LIMIT = 150      # seconds of wall clock per run
+
+
 def _child(site_desc, opts, conc, seed, workdir, logpath, kill, run_index=0):
     """Runs in a forked child. kill = None | ('table', k) | ('commit', k) | ('request', k) | ('sigterm', k): the
     application's own SIGTERM handler is run when the k-th request arrives."""
@@ -116,8 +119,19 @@ def spawn(site_desc, opts, conc, seed, workdir, logpath, kill, run_index=0):
             _child(site_desc, opts, conc, seed, workdir, logpath, kill, run_index)
         finally:
             os._exit(5)
-    _, status = os.waitpid(pid, 0)
-    return os.waitstatus_to_exitcode(status)
+    # a run of these sites takes seconds; one that is still going after minutes (a crawl that has become endless) is
+    # ended and reported by its exit code (-9) instead of holding the whole check up
+    import time
+    deadline = time.time() + RUN_LIMIT
+    while True:
+        done, status = os.waitpid(pid, os.WNOHANG)
+        if done:
+            return os.waitstatus_to_exitcode(status)
+        if time.time() > deadline:
+            os.kill(pid, 9)
+            os.waitpid(pid, 0)
+            return -9
+        time.sleep(0.02)
 
 
 def read_log(path):
